@@ -101,7 +101,8 @@ def reqresp_oracle(ix: Index, scn: dict) -> list[Violation]:
             continue
         same_turn_ok = stop_key is not None and stop_key[0] >= end_turn - 1
         if err.get("cls") == "TimeoutAPIError":
-            if abs(op.t1 - t_deadline) > 1e-6 * max(1.0, timeout):
+            stall_d = sum(dd for sq, dd in ix.stalls if op.s0 < sq < op.s1)
+            if (abs(op.t1 - t_deadline) > 1e-6 * max(1.0, timeout)) if not stall_d else not (t_deadline - 1e-6 <= op.t1 <= t_deadline + stall_d + 1e-6):
                 out.append(Violation("timeout-time", "", f"{op.actor} timed out at t={op.t1:.9f}, expected exactly {t_deadline:.9f} (issued {op.t0:.9f} + {timeout})"))
             # within one turn I/O callbacks run before due timers: a stop message dispatched in the turn in which the
             # timeout timer fired (end_turn - 1) completed the call first, also when the loop was stalled past the deadline
@@ -205,6 +206,14 @@ def gen_c11(rng: random.Random) -> dict:
             events.append({"at": trig, "do": "dev", "act": {"raw_hex": "ffffff" if "noise_psk" not in client else "0300aa", "latency": 0.0}})
         else:
             events.append({"at": trig, "do": "poke", "what": "cancel", "target": w, "phase": phase})
+    if rng.random() < 0.2:
+        # the event loop is blocked for a while (a slow callback elsewhere in the application): a timeout becomes overdue
+        # while its reply is already readable - the reply, dispatched first, still wins
+        for _ in range(rng.randint(1, 2)):
+            w, t0, timeout, types, key = pick(rng, calls)
+            events.append({"at": {"t": t0 + timeout - pick(rng, [0.3, 0.1, 0.01])}, "do": "fault", "kind": "stall", "d": pick(rng, [0.05, 0.2, 0.5, 1.5]), "phase": "pre"})
+            if rng.random() < 0.7:
+                events.append({"at": {"t": t0 + timeout - pick(rng, [0.25, 0.05, 0.005])}, "do": "dev", "act": {"msgs": [[pick(rng, types), {"key": key}]], "latency": 0.0}})
     if rng.random() < 0.3:
         # a plain subscriber on the calls' response types, unsubscribed (twice: the callable is idempotent) around the calls
         w, t0, timeout, types, key = pick(rng, calls)
